@@ -226,6 +226,11 @@ async fn batch_case(n: usize, rel: Vec<i64>) -> Option<Value> {
 		let start = arr[0]["id"].as_u64().unwrap() as i64;
 		let mut out = Vec::new();
 		for (pos, r) in rel2.iter().enumerate() {
+			if *r == 99 {
+				// a plain notification sharing the array with the batch's answers
+				out.push(json!({"jsonrpc":"2.0","method":"unrelated_notification","params":[pos]}));
+				continue;
+			}
 			let id = start + r;
 			out.push(json!({"jsonrpc":"2.0","id":id,"result":format!("id{}#pos{}", id, pos)}));
 		}
@@ -234,6 +239,16 @@ async fn batch_case(n: usize, rel: Vec<i64>) -> Option<Value> {
 	});
 	let res = fut.await;
 	let (_peer, start) = h.await.unwrap();
+	{
+		// every entry answered exactly once under its own id (in any order, whatever else shares the array): the call succeeds
+		let mut ids: Vec<i64> = rel.iter().cloned().filter(|r| *r != 99).collect();
+		ids.sort();
+		if ids == (0..n as i64).collect::<Vec<_>>() && res.is_err() {
+			return Some(json!({"probe":"client_batch_positional","disagrees":true,
+				"input": format!("batch of {n} (ids {start}..{}), reply elements (ids relative to start; 99 = an unrelated notification) {:?}", start + n as i64, rel),
+				"observed": format!("the batch call failed: {}", res.err().map(|e| e.to_string()).unwrap_or_default()), "expected":"Ok with n entries (every entry was answered under its own id)"}));
+		}
+	}
 	if let Ok(br) = res {
 		let ok = br.num_successful_calls();
 		let failed = br.num_failed_calls();
@@ -287,6 +302,9 @@ pub fn client_batch_positional() -> Value {
 			}
 			cases.push((4, rel));
 		}
+		for with_notif in [vec![99i64, 0, 1, 2], vec![0, 99, 1, 2], vec![2, 1, 0, 99], vec![1, 99, 99, 0, 2]] {
+			cases.push((3, with_notif));
+		}
 		let total = cases.len();
 		for chunk in cases.chunks(64) {
 			let hs: Vec<_> = chunk.iter().cloned().map(|(n, rel)| tokio::spawn(batch_case(n, rel))).collect();
@@ -297,7 +315,7 @@ pub fn client_batch_positional() -> Value {
 			}
 		}
 		json!({"probe":"client_batch_positional","disagrees":false,"reply_sequences_tried":total,
-			"bound":"n=3: all reply sequences of length 2,3 over ids start-1..=start+3; n=4: all sequences of length 4 over in-range ids"})
+			"bound":"n=3: all reply sequences of length 2,3 over ids start-1..=start+3; n=4: all sequences of length 4 over in-range ids; 4 complete replies sharing the array with notifications"})
 	})
 }
 
@@ -1285,7 +1303,20 @@ pub fn params_sequence_agrees_with_parse() -> Value {
 	if absent.sequence().next::<Value>().is_ok() || absent.parse::<Option<u8>>().ok() != Some(None) {
 		return fail("absent params", "not treated as null / empty".into(), "null / empty array".into());
 	}
-	json!({"probe":"params_sequence_agrees_with_parse","disagrees":false,"inputs_tried":tried,"bound":"arrays of 0..3 elements from 12 element texts x 6 separators x 4 open/close spellings (incl. CRLF)"})
+	// params that are not an array: reading them as a sequence is a shape mismatch (-32602), never "no more params"
+	for t in ["7", "0", "17", "-1", "1.5", "true", "null", "\"x\"", "{}", "{\"a\":1}"] {
+		tried += 1;
+		let p = Params::new(Some(t));
+		let r1 = p.sequence().optional_next::<serde_json::Value>();
+		let r2 = p.sequence().next::<serde_json::Value>();
+		let bad = |r: &Result<(), i32>| !matches!(r, Err(-32602));
+		let m1 = r1.as_ref().map(|_| ()).map_err(|e| e.code());
+		let m2 = r2.as_ref().map(|_| ()).map_err(|e| e.code());
+		if bad(&m1) || bad(&m2) {
+			return fail(&format!("params {t} (not an array) read as a sequence: optional_next, next"), format!("optional_next -> {:?}, next -> {:?}", r1.map_err(|e| e.code()), r2.map_err(|e| e.code())), "both fail with -32602".into());
+		}
+	}
+	json!({"probe":"params_sequence_agrees_with_parse","disagrees":false,"inputs_tried":tried,"bound":"arrays of 0..3 elements from 12 element texts x 6 separators x 4 open/close spellings (incl. CRLF); 10 non-array params texts"})
 }
 
 // ------------------------------------------------------------------------------------------
